@@ -191,7 +191,7 @@ class Hist:
 
 def run(tier, seed):
     ctx = core.Ctx(PID, tier, seed, LEVEL)
-    n = 1500 if tier == "quick" else 30000
+    n = 1500 if tier == "quick" else core.share(30000)
     steps = 60
     legs = ["dev"] if tier == "quick" else ["dev", "release"]
     ctx.rule = ("random histories (up to %d top-level steps) over 2-5 counters/accumulators/cells/boxes/bags made by 2-3 generator procedures, up to 6 vectors "
@@ -235,7 +235,7 @@ def run(tier, seed):
                                "form": detail["form"], "leg": leg, "dedupe": skeleton_of(detail["form"])},
                               {"forms": [show(f) for f in h], "detail": detail, "leg": leg})
         ctx.legs.append(leg)
-    if tier == "thorough":
+    if tier == "thorough" and core.PART_I == 0:
         # Miri leg: the same histories, a few of them, under the UB / aliasing interpreter (RefCell borrows of the environment and of vectors)
         from . import sanitize
         sl = hists[:16]
